@@ -23,6 +23,11 @@ The same for the functional and module Black-Scholes prices behind `def pricer(*
 Global autograd state (predicate + model): every module Greek, the modules' forward, the functional forms, autogreek on module prices and on
 user pricers inside torch.no_grad() / set_grad_enabled(False) / inference_mode() and after set_default_dtype(float64) (float64 and float32
 data): the routes that do not depend on the caller's gradient mode have to answer, every value that comes back has to be the derivative.
+Tensor strikes (predicate + model): every family x Greek on every tier with the strike given as a float64 TENSOR (0-dim, (1,), one per element,
+one per path against paths x steps) through the module built with it (every form), its forward, the functional form and autogreek on its price.
+Entangled inputs (predicate + model): every family x Greek x root (log-moneyness, time, volatility) on every tier: the root has requires_grad=True
+(leaf or tracked result) and the OTHER arguments were computed from it (running maximum = root.cummax(-1).values, or value + c (root - root.detach()));
+the Greek is the PARTIAL derivative at the values given (harness derivative on fresh detached leaves) through functional form, module, forward, autogreek.
 Glue (correspondence, op "autogreek"; model lean/PfVerif/Model/Autogreek.lean, theorems Lemmas/C08Glue.lean): in the three user-pricer sections
 (every parameterisation; given parameterisation x pricer names on grids; declarations) the pricer is called through a wrapper that RECORDS the
 keyword arguments autogreek hands to it; element by element the signature read with inspect.signature, the caller's keyword arguments and the
@@ -1680,6 +1685,9 @@ def check(ctx):
              "keyword-only wrappers and functools.partial keyword bindings (also vs the model, op bs_dual); every family x Greek x global state "
              "(no_grad, set_grad_enabled(False), inference_mode, default dtype float64 with float64 / float32 data, both) through the module, its "
              "forward, the functional form or autogreek - routes independent of the caller's gradient mode must answer, values must be derivatives; "
+             "every family x Greek with a float64 tensor strike (0-dim, (1,), per element, per path) through module / forward / functional / autogreek; "
+             "every family x Greek x root in {log-moneyness, time, volatility} with requires_grad=True and the other arguments computed from the root "
+             "(cummax running maximum, value-preserving graph ties): partial derivative at the given values, vs fresh detached leaves and the model; "
              "the glue of autogreek (op autogreek): every call of the three user-pricer sections through a recording wrapper, element by element - "
              "keyword arguments received (names exactly, values to 1e-12), error kind, Greek (1e-8, gamma 1e-7) vs the model's parse / derive / "
              "signature filter / argument binding / dual-number evaluation of the symbolically executed body; 8 kinds of glue-only cases x 4 Greeks "
